@@ -262,6 +262,24 @@ def run_case(case):
             j = int(np.nonzero(img_again.reshape(-1) != img.reshape(-1))[0][0])
             bad("second-call-differs", f"the second conversion of the same frame differs from the first, e.g. pixel {j}: "
                 f"{img.reshape(-1)[j]} then {img_again.reshape(-1)[j]}")
+        # a converter works pixel by pixel: the code of a pixel must not depend on WHICH other values are in the frame
+        # (frames without negative / over-range values, without under-range values, without over-range values)
+        mid = 0.5 * lo + 0.5 * hi
+        for tag, keep in (("no negative and no over-range value", (frame >= 0) & (frame <= hi)),
+                          ("no under-range value", frame >= lo), ("no over-range value", frame <= hi)):
+            sub = np.where(keep, frame, mid)
+            try:
+                with np.errstate(all="ignore"):
+                    img_sub = run_model(det, variant, sub, bits)
+            except Exception as e:  # noqa: BLE001
+                bad("partial-frame-raised", f"a frame with {tag} raised {type(e).__name__}: {str(e)[:200]}")
+                continue
+            diff = keep & (img_sub != img) if img_sub.shape == img.shape else None
+            if diff is None or diff.any():
+                j = int(np.nonzero(diff.reshape(-1))[0][0]) if diff is not None else 0
+                bad("code-depends-on-frame", f"pixel value {float(frame.reshape(-1)[j])!r} V is digitised as "
+                    f"{img.reshape(-1)[j]} in the full test frame but as {img_sub.reshape(-1)[j]} in a frame with {tag}")
+                break
         y = img.reshape(-1)[back]
         outs[variant] = (y, img.dtype)
         check_codes(model, dt_arg, bits, lo, hi, xs, y, img.dtype, bad)
